@@ -858,11 +858,15 @@ regp_recv(RegP *p, RPMaybeFrame *mf)
     case EBUSY:
         /* Send EBUSY reply, based on fallback buffer */
         return early_ebusy(p, &fb);
-    case ENOMEM:
-        /* Send ERXOVERFLOW reply, based on fallback buffer */
-        byte_buffer_rewind(&fb);
-        byte_buffer_add(&fb, mf->frame->raw.memory, RP_HEADER_SIZE);
+    case ENOMEM: {
+        /* Send ERXOVERFLOW reply, based on the start of the received frame,
+         * which sits behind the RPFrame structure in the block. */
+        const size_t have = cs.buffer.used - sizeof(RPFrame);
+        byte_buffer_reset(&fb);
+        byte_buffer_add(&fb, cs.buffer.data + sizeof(RPFrame),
+                        have < RP_HEADER_SIZE ? have : RP_HEADER_SIZE);
         return early_erxoverflow(p, &fb);
+    }
     default:
         /* Unexpected error. Really shouldn't happen. */
         return -EINVAL;
